@@ -8,6 +8,7 @@ import (
 	"encoding/json"
 	"fmt"
 	"os"
+	"path/filepath"
 	"sort"
 	"strings"
 	"sync"
@@ -27,6 +28,9 @@ type hcase struct {
 	Alts  []hshape `json:"alts,omitempty"` // other versions of the spokfile (op "spokfile" switches to one; -1 = back to Shape)
 	Ops   []hop    `json:"ops"`
 	Via   string   `json:"via"` // inproc | binary
+	// InPlace: edits are applied to the project directory as it stands (no re-materialisation
+	// between operations), so that directory and file modification times have a real history
+	InPlace bool `json:"in_place,omitempty"`
 }
 
 func (h hcase) key() string {
@@ -76,9 +80,17 @@ func execHistory(c *core.Ctx, sb *sandbox, h hcase, prop string) ([]core.Violati
 		if op.Kind != "run" {
 			applyEdit(&st, op)
 			edited = true
+			if h.InPlace {
+				sb.applyOnDisk(op)
+			}
 			continue
 		}
-		sb.materialise(shape, st)
+		if h.InPlace {
+			// only the spokfile is (re)written; everything else is what the history left on disk
+			_ = os.WriteFile(filepath.Join(sb.Proj, "spokfile"), []byte(sb.spokfileText(shape)), 0o644)
+		} else {
+			sb.materialise(shape, st)
+		}
 		var o hobs
 		if h.Via == "binary" || len(op.Tasks) == 0 {
 			o = sb.runBinary(c.SpokRace(), shape, op, nil) // (no task names = the CLI's default handling)
@@ -165,6 +177,8 @@ func histWorker(c *core.Ctx) {
 		histBFS(c, sb, res, wl)
 	case "rand":
 		histRandom(c, sb, res, wl)
+	case "inplace":
+		histInPlace(c, sb, res, wl)
 	}
 	core.WriteResult(res)
 }
@@ -340,7 +354,7 @@ func randShape(r *core.Rng) hshape {
 func randHistory(r *core.Rng, length int) hcase {
 	s := randShape(r)
 	h := hcase{Shape: s, Via: "inproc"}
-	values := []string{"v1", "v2", "v3", ""}
+	values := []string{"v1", "v2", "v3", "", "l1\nl2\n", "l1\r\nl2\r\n"}
 	// start from a populated project most of the time
 	if r.Chance(80) {
 		for _, f := range s.Files {
@@ -430,6 +444,7 @@ func histRandom(c *core.Ctx, sb *sandbox, res *core.ShardResult, wl *core.WLog) 
 		if i%20 == 0 {
 			vias = append(vias, "binary")
 		}
+		h.InPlace = i%2 == 1
 		for _, via := range vias {
 			h.Via = via
 			if !wl.Always(0, i, func() any { return h }) {
@@ -488,20 +503,100 @@ func histRandom(c *core.Ctx, sb *sandbox, res *core.ShardResult, wl *core.WLog) 
 	}
 }
 
+// histInPlace executes every operation sequence up to a bounded length over a small alphabet on
+// one shape *in place*: the project directory is created once per sequence and then only edited,
+// so that directory and file modification times, emptied directories and whatever spok keeps in
+// .spok have the history a real project has (the state search re-creates the directory for every
+// transition and cannot see anything that depends on that).
+var inPlaceShape = hshape{Name: "in-place", Tasks: []htask{{Name: "A", Globs: []string{"**/*.txt"}, NCmd: 1}, {Name: "B", Lits: []string{"a.txt"}, NCmd: 1}},
+	Files: []string{"a.txt", "sub/s.txt", "sub/n.md"}}
+
+func histInPlace(c *core.Ctx, sb *sandbox, res *core.ShardResult, wl *core.WLog) {
+	alphabet := []hop{
+		{Kind: "run", Tasks: []string{"A", "B"}},
+		{Kind: "write", File: "a.txt", Value: "v1"},
+		{Kind: "write", File: "sub/s.txt", Value: "v1"},
+		{Kind: "write", File: "sub/n.md", Value: "v1"},
+		{Kind: "delete", File: "sub/s.txt"},
+		{Kind: "write", File: "a.txt", Value: "v2"},
+		{Kind: "run", Tasks: []string{"A"}},
+	}
+	maxLen := c.Q(6, 7)
+	n := len(alphabet)
+	wl.Block(0)
+	count := 0
+	for length := 2; length <= maxLen; length++ {
+		total := 1
+		for i := 0; i < length-1; i++ {
+			total *= n
+		}
+		for idx := 0; idx < total; idx++ {
+			count++
+			if count%c.NShards != c.Shard {
+				continue
+			}
+			// the last operation is always the full run (shorter endings are prefixes of other sequences)
+			ops := make([]hop, length)
+			x := idx
+			runs := 1
+			for i := length - 2; i >= 0; i-- {
+				ops[i] = alphabet[x%n]
+				if ops[i].Kind == "run" {
+					runs++
+				}
+				x /= n
+			}
+			ops[length-1] = alphabet[0]
+			if runs < 2 {
+				continue
+			}
+			h := hcase{Shape: inPlaceShape, Ops: ops, Via: "inproc", InPlace: true}
+			if count%512 == 0 {
+				wl.Tick()
+			}
+			if !wl.Begin(0, count, func() any { return h }) {
+				continue
+			}
+			vs, stats := execHistory(c, sb, h, c.Prop)
+			res.Evaluations += int64(stats.Runs)
+			res.Count("in_place_sequences", 1)
+			res.Count("skips_observed", int64(stats.Skips))
+			res.Count("executions_observed", int64(stats.Reruns))
+			if stats.Skips > 0 && stats.Reruns > 0 {
+				res.Nontrivial++ // sequences are distinct by construction
+			}
+			seen := map[string]bool{}
+			for _, v := range vs {
+				if seen[v.Clause] || res.Counters["violations_total"] > 20 {
+					continue
+				}
+				seen[v.Clause] = true
+				v.Key = h.key()
+				v.Case = core.JSON(h)
+				res.Violate(v)
+			}
+		}
+	}
+}
+
 // ---------------------------------------------------------------------------
 // Orchestrator
 
 var histRules = map[string]string{
-	"C01": "states = (content of every project file, bytes of .spok/cache.json or its absence, model of each task's last success); breadth-first search from the empty project over {write 'v1' / (thorough: 'v2') / the empty content to each file, delete it, rm -rf .spok, rm .spok/cache.json, chmod +x, run every non-empty task subset plain/forced, also with the first command of each closure task failing} on 17 spokfile shapes (a variable whose value differs on every invocation interpolated into the commands, two files with the same base name, a dependency rewritten by the task itself, a task named default run without task names through the binary, a dependency that may be a symbolic link, task names differing only in case, literal, glob, recursive glob, both, no-file task, shared file, task dependency, same glob with different literals, a file named twice, a generated input copied by a dependency, chain of three), each (state, run-op) executed once by the real code in-process (to a fixpoint unless the cap is reported), plus seeded random histories in a larger universe (3 values and the empty content, 7 files incl. hidden and nested, random task shapes, in a third of the histories the spokfile itself is edited so that a task declares one dependency more or less), every 20th also through the race-built binary. evaluations = spok invocations judged; non-trivial = distinct (state, run-op) transitions in which a skip was observed, resp. random histories with a skip after an edit and a re-run",
+	"C01": "states = (content of every project file, bytes of .spok/cache.json or its absence, model of each task's last success); breadth-first search from the empty project over {write 'v1' / (thorough: 'v2') / the empty content to each file, delete it, rm -rf .spok, rm .spok/cache.json, chmod +x, run every non-empty task subset plain/forced, also with the first command of each closure task failing} on 18 spokfile shapes (a task with a non-ASCII name, a variable whose value differs on every invocation interpolated into the commands, two files with the same base name, a dependency rewritten by the task itself, a task named default run without task names through the binary, a dependency that may be a symbolic link, task names differing only in case, literal, glob, recursive glob, both, no-file task, shared file, task dependency, same glob with different literals, a file named twice, a generated input copied by a dependency, chain of three), each (state, run-op) executed once by the real code in-process (to a fixpoint unless the cap is reported), plus seeded random histories in a larger universe (3 values, the empty content and an LF/CRLF pair; every second history is applied in place so that modification times have a real history; 7 files incl. hidden and nested, random task shapes, in a third of the histories the spokfile itself is edited so that a task declares one dependency more or less), every 20th also through the race-built binary; plus every operation sequence of up to 6 (thorough 7) steps over {run A B, run A, write/delete three files} executed in place on one glob shape. evaluations = spok invocations judged; non-trivial = distinct (state, run-op) transitions in which a skip was observed, resp. random histories with a skip after an edit and a re-run",
 	"C02": "same search and histories as C01, judged in the converse direction (crash-free only); non-trivial = distinct transitions/histories in which the model demanded a skip inside a multi-task invocation",
 	"C14": "same search and histories as C01 (any run may carry --force); non-trivial = distinct forced transitions that hit an up-to-date task, resp. random histories with such a forced run followed by an unforced run",
 }
 
 func histRun(c *core.Ctx) bool {
 	var wg sync.WaitGroup
-	var bfs, rnd *core.ShardResult
-	var d1, d2 []core.Death
-	wg.Add(2)
+	var bfs, rnd, inp *core.ShardResult
+	var d1, d2, d3 []core.Death
+	wg.Add(3)
+	go func() {
+		defer wg.Done()
+		inp, d3 = c.RunWorkers(core.WorkerSpec{Sub: "inplace", Binary: c.VcheckFast(), NShards: 6, Parallel: 6})
+	}()
 	go func() {
 		defer wg.Done()
 		// the search is sequential cache logic: it runs on the plain build (3-5x more transitions per
@@ -516,7 +611,8 @@ func histRun(c *core.Ctx) bool {
 	total := core.NewShardResult()
 	total.Merge(bfs)
 	total.Merge(rnd)
-	deaths := append(d1, d2...)
+	total.Merge(inp)
+	deaths := append(append(d1, d2...), d3...)
 	// one report per (clause, shortest witness): sort by witness length
 	sort.SliceStable(total.Violations, func(i, j int) bool { return len(total.Violations[i].Key) < len(total.Violations[j].Key) })
 	perClause := map[string]int{}
